@@ -525,7 +525,7 @@ func SexpToGo(sexp Sexp, env *Zlisp, dedup map[*SexpHash]interface{}) (result in
 				val := SexpToGo(pair.Tail, env, dedup)
 				keyString, isStringKey := key.(string)
 				if !isStringKey {
-					panic(fmt.Errorf("key '%v' should have been a string, but was not.", key))
+					panic(fmt.Errorf("key '%s' should have been a string, but was not.", showForErr(key)))
 				}
 				m[keyString] = val
 			}
@@ -820,11 +820,11 @@ func SexpToGoStructs(
 						val := SexpToGo(pair.Tail, env, dedup)
 						keys, isstr := key.(string)
 						if !isstr {
-							panic(fmt.Errorf("key '%v' should have been an string, but was not.", key))
+							panic(fmt.Errorf("key '%s' should have been an string, but was not.", showForErr(key)))
 						}
 						vals, isstr := val.(string)
 						if !isstr {
-							panic(fmt.Errorf("val '%v' should have been an string, but was not.", val))
+							panic(fmt.Errorf("val '%s' should have been an string, but was not.", showForErr(val)))
 						}
 						m[keys] = vals
 					}
@@ -840,7 +840,7 @@ func SexpToGoStructs(
 						val := SexpToGo(pair.Tail, env, dedup)
 						keys, isstr := key.(string)
 						if !isstr {
-							panic(fmt.Errorf("key '%v' should have been an string, but was not.", key))
+							panic(fmt.Errorf("key '%s' should have been an string, but was not.", showForErr(key)))
 						}
 						switch x := val.(type) {
 						case float64:
@@ -848,7 +848,7 @@ func SexpToGoStructs(
 						case int64:
 							m[keys] = float64(x)
 						default:
-							panic(fmt.Errorf("val '%v' should have been an float64, but was not.", val))
+							panic(fmt.Errorf("val '%s' should have been an float64, but was not.", showForErr(val)))
 						}
 					}
 				}
@@ -865,7 +865,7 @@ func SexpToGoStructs(
 						val := SexpToGo(pair.Tail, env, dedup)
 						keyint64, isint64Key := key.(int64)
 						if !isint64Key {
-							panic(fmt.Errorf("key '%v' should have been an int64, but was not.", key))
+							panic(fmt.Errorf("key '%s' should have been an int64, but was not.", showForErr(key)))
 						}
 						switch x := val.(type) {
 						case float64:
@@ -873,7 +873,7 @@ func SexpToGoStructs(
 						case int64:
 							m[keyint64] = float64(x)
 						default:
-							panic(fmt.Errorf("val '%v' should have been an float64, but was not.", val))
+							panic(fmt.Errorf("val '%s' should have been an float64, but was not.", showForErr(val)))
 						}
 					}
 				}
@@ -897,7 +897,7 @@ func SexpToGoStructs(
 							//val := SexpToGo(pair.Tail, env, dedup)
 							keys, isstr := key.(string)
 							if !isstr {
-								panic(fmt.Errorf("key '%v' should have been an string, but was not.", key))
+								panic(fmt.Errorf("key '%s' should have been an string, but was not.", showForErr(key)))
 							}
 							//vv("keys = '%v'", keys)
 
